@@ -239,7 +239,7 @@ func rngSpace(name string, thorough bool) *space {
 	pairs := [][2]int{{64, 32}, {0, 166}, {166, 1}, {167, 0}}
 	if thorough {
 		pairs = nil
-		for _, a := range []int{0, 1, 32, 64, 165, 166, 167, 332} {
+		for _, a := range []int{0, 32, 166, 167} {
 			for _, b := range []int{0, 32} {
 				pairs = append(pairs, [2]int{a, b})
 			}
@@ -292,26 +292,40 @@ func lengthSweep(thorough bool) *space {
 		}
 	}
 	const maxLen = 400
-	prod := mc.Product{Radix: []int{len(starts), 4, 2, maxLen + 1}}
-	s := &space{name: "lengths", creates: []int{13}, n: prod.Size()}
+	// quick: both labels from 5 residues; thorough: the empty label from every residue, the one-byte label from the same 5
+	five := []int{0, 100, 163, 164, 165}
+	prod := mc.Product{Radix: []int{len(starts), 4, 1, maxLen + 1}}
+	prod2 := mc.Product{Radix: []int{len(five), 4, 1, maxLen + 1}}
+	s := &space{name: "lengths", creates: []int{13}, n: prod.Size() + prod2.Size()}
 	s.gen = func(i int) hist {
 		var d [4]int
-		prod.Decode(i, d[:])
-		h := hist{create: 13, ops: []op{{kind: kAppend, label: 0, n: starts[d[0]]}}}
-		l, n := d[2], d[3]
-		switch d[1] {
-		case 0:
-			h.ops = append(h.ops, op{kind: kAppend, label: l, n: n})
-		case 1:
-			h.ops = append(h.ops, op{kind: kExtract, label: l, n: n})
-		case 2:
-			h.ops = append(h.ops, op{kind: kBuildRng}, op{kind: kRekey, label: l, n: n}, op{kind: kFinalize, reader: rdZero}, op{kind: kRead, n: 32})
-		default:
-			h.ops = append(h.ops, op{kind: kBuildRng}, op{kind: kFinalize, reader: []int{rdZero, rdGeneric}[l]}, op{kind: kRead, n: n})
+		if i < prod.Size() {
+			prod.Decode(i, d[:])
+		} else {
+			prod2.Decode(i-prod.Size(), d[:])
+			d[2] = 1
+			return lengthHist(five[d[0]], d)
 		}
-		return h
+		return lengthHist(starts[d[0]], d)
 	}
 	return s
+}
+
+// lengthHist: d = (start index, operation, label length, data length).
+func lengthHist(start int, d [4]int) hist {
+	h := hist{create: 13, ops: []op{{kind: kAppend, label: 0, n: start}}}
+	l, n := d[2], d[3]
+	switch d[1] {
+	case 0:
+		h.ops = append(h.ops, op{kind: kAppend, label: l, n: n})
+	case 1:
+		h.ops = append(h.ops, op{kind: kExtract, label: l, n: n})
+	case 2:
+		h.ops = append(h.ops, op{kind: kBuildRng}, op{kind: kRekey, label: l, n: n}, op{kind: kFinalize, reader: rdZero}, op{kind: kRead, n: 32})
+	default:
+		h.ops = append(h.ops, op{kind: kBuildRng}, op{kind: kFinalize, reader: []int{rdZero, rdGeneric}[l]}, op{kind: kRead, n: n})
+	}
+	return h
 }
 
 // largeSpace: lengths whose LE32 framing uses the 2nd, 3rd (and, thorough, 4th) byte.
